@@ -1,10 +1,103 @@
 From FJ Require Import Lib.Base.
 (* C02: the assembled image equals the denotation of the macro-free source. *)
-From FJ Require Import Spec.MachineSpec Model.Ast Spec.DenoteSpec Model.DenoteCheck Model.Layout Proofs.DenoteProps.
+From FJ Require Import Spec.MachineSpec Model.Ast Spec.DenoteSpec Model.DenoteCheck Model.Layout.
+From FJ Require Import Proofs.DenoteProps Proofs.LayoutProps.
+Local Open Scope string_scope.
 
-(* the certified checker decides the property for one program on the implementation's own output *)
+(* 1. the certified checker decides the property for one program on the implementation's own output
+      (run inside Coq by ./check C02 on every generated program) *)
 Theorem C02_check_denotes_sound :
   forall (ww : N) (img : image) (P : list stmt) (lbls : labels),
     check_denotes ww img P lbls = true -> Denotes ww img P lbls.
 Proof. exact check_denotes_sound. Qed.
 Print Assumptions C02_check_denotes_sound.
+
+(* 2. universal theorems about the model of the assembler (Model/Layout.v), proved so far:
+      the address and label clauses of Denotes ... *)
+Theorem C02_sound_labels_partial :
+  forall ww ver strict P segs words lbls,
+    assemble_model ww ver strict P = Ok (segs, words, lbls) ->
+    lexical_labels P = true ->
+    exists L, place ww (lookup lbls) P 0 = Some L /\ Forall (label_ok lbls) L.
+Proof. exact assemble_labels_sound. Qed.
+Print Assumptions C02_sound_labels_partial.
+
+(* ... and: whatever is emitted is a list of well-formed, pairwise disjoint, in-range, word-pair aligned segments
+   (an overlapping / misaligned / out-of-range segment never reaches an image) *)
+Theorem C02_rejects_segments_partial :
+  forall ww ver strict P segs words lbls,
+    assemble_model ww ver strict P = Ok (segs, words, lbls) ->
+    exists wr, wr_inv ww wr /\ segs = read_segments wr /\ words = read_words ww ver wr.
+Proof. exact assemble_segments_sound. Qed.
+Print Assumptions C02_rejects_segments_partial.
+
+(* the full statements (Proofs/LayoutProps.v: C02_sound_statement, C02_rejects_statement) are NOT proved yet;
+   the second is a corollary of the first *)
+Theorem C02_rejects_from_sound_partial : C02_sound_statement -> C02_rejects_statement.
+Proof. exact C02_rejects_from_sound. Qed.
+Print Assumptions C02_rejects_from_sound_partial.
+
+(* 3. the hypotheses are satisfiable: a program with shared wflip chains, pad holes, a reserve and two segments *)
+Definition ps := mkpos "f1.fj" "f1" 1%N.
+Definition prog_ok : list stmt :=
+  [SFlipJump (EInt 0) (ELbl "a") ps; SLabel "r" ps; SFlipJump (EInt 0) (ELbl "r") ps;
+   SLabel "t" ps; SFlipJump (EInt 0) (EInt 0) ps; SFlipJump (EInt 0) (EInt 0) ps;
+   SLabel "a" ps; SWordFlip (ELbl "t") (EInt 14) (ELbl "r") ps; SWordFlip (ELbl "t") (EInt 13) (ELbl "r") ps;
+   SPad (EInt 4) ps; SWordFlip (EOp OAdd [ELbl "t"; EInt 16]) (EInt 7) (ELbl "a") ps;
+   SReserve (EInt 64) ps; SFlipJump (ELbl "$") (EOp OSub [ELbl "$"; EInt 32]) ps;
+   SSegment (EInt 1024) ps; SLabel "z" ps; SFlipJump (EInt 0) (ELbl "z") ps].
+
+Example C02_nonvacuous :
+  exists segs words lbls,
+    assemble_model 4 3 true prog_ok = Ok (segs, words, lbls)
+    /\ C02_guards 4 3 true prog_ok lbls = true
+    /\ Denotes 4 (image_of segs words) prog_ok lbls.
+Proof.
+  eexists. eexists. eexists. split; [vm_compute; reflexivity|]. split; [vm_compute; reflexivity|].
+  apply check_denotes_sound. vm_compute. reflexivity.
+Qed.
+
+(* 4. the recorded defects: without the guard the model (= the code as it is) produces an image that is not the denotation *)
+Definition witness (ww ver : N) (P : list stmt) : Prop :=
+  exists segs words lbls,
+    assemble_model ww ver true P = Ok (segs, words, lbls)
+    /\ check_denotes ww (image_of segs words) P lbls = false.
+
+(* F16: a chain op in the pad hole at 2w, the op that holds the input cell *)
+Definition prog_F16 : list stmt :=
+  [SFlipJump (EInt 0) (ELbl "start") ps; SPad (EInt 4) ps; SLabel "start" ps;
+   SWordFlip (ELbl "t") (EInt 15) (ELbl "done") ps; SLabel "done" ps; SFlipJump (EInt 0) (ELbl "done") ps;
+   SLabel "t" ps; SFlipJump (EInt 0) (EInt 0) ps].
+Example C02_sound_refuted_F16 : witness 4 0 prog_F16 /\ aux_on_io 4 [(":wflips:2", 32%Z)] = true.
+Proof. split; [|reflexivity]. eexists. eexists. eexists. split; vm_compute; reflexivity. Qed.
+
+(* F17: the label `_.wflip_area_start_0` is overwritten by the first `segment` *)
+Definition prog_F17 : list stmt :=
+  [SLabel "_.wflip_area_start_0" ps; SFlipJump (EInt 0) (ELbl "_.wflip_area_start_0") ps;
+   SFlipJump (EInt 0) (ELbl "_.wflip_area_start_0") ps; SSegment (EInt 256) ps; SFlipJump (EInt 0) (ELbl "$") ps].
+Example C02_sound_refuted_F17 : witness 4 0 prog_F17 /\ lexical_labels prog_F17 = false.
+Proof. split; [|reflexivity]. eexists. eexists. eexists. split; vm_compute; reflexivity. Qed.
+
+(* F18: a negative reserve back to the start of the piece keeps the earlier ops in the image *)
+Definition prog_F18 : list stmt :=
+  [SFlipJump (EInt 0) (ELbl "s") ps; SSegment (EInt 1024) ps; SLabel "s" ps; SFlipJump (EInt 0) (ELbl "$") ps;
+   SFlipJump (EInt 0) (ELbl "$") ps; SReserve (EInt (-64)) ps; SLabel "x" ps; SFlipJump (EInt 0) (ELbl "x") ps;
+   SReserve (EInt 128) ps].
+Example C02_sound_refuted_F18 : witness 4 1 prog_F18.
+Proof. eexists. eexists. eexists. split; vm_compute; reflexivity. Qed.
+
+(* F8 (fixed in /repo by b770ddf): an op word that does not fit [0, 2^w) is rejected; before the fix (strict_range =
+   false) fjm versions 2/3 wrapped the jump word: kept as the regression witness the campaign signature refers to *)
+Definition prog_F8 : list stmt := [SFlipJump (EInt 0) (EInt (-1)) ps].
+Example C02_F8_rejected : assemble_model 3 2 true prog_F8 = LibError KWflipValue.
+Proof. vm_compute. reflexivity. Qed.
+Example C02_F8_regression_witness :
+  exists segs words lbls,
+    assemble_model 3 2 false prog_F8 = Ok (segs, words, lbls) /\ ~ Denotes 3 (image_of segs words) prog_F8 lbls.
+Proof.
+  eexists. eexists. eexists. split; [vm_compute; reflexivity|].
+  intros (L & HL & _ & HF). cbn in HL. injection HL as <-.
+  inversion HF as [|? ? H1 _]; subst. cbn in H1.
+  destruct H1 as (vf & vj & _ & Ej & _ & _ & _ & Hw). injection Ej as <-.
+  destruct Hw as (_ & _ & [H0 _] & _). lia.
+Qed.
